@@ -259,9 +259,15 @@ class Breakages(object):
         return r[0], vs, 1
 
 
+def tier_of(case):
+    return case.get('tier', 'quick')
+
+
 class Options(object):
     name = 'options'
-    describe = 'all 512 option subsets: a parser can be built iff supportIndex implies supportSmiV1Keywords; unknown option names'
+    describe = ('all 512 option subsets: a parser can be built iff supportIndex implies supportSmiV1Keywords, and naming the other '
+                'relaxations with a false value (False; thorough: also 0, None) gives the same parser; unknown option names with '
+                'true and false values')
 
     def blocks(self, tier):
         return [{'lo': i, 'hi': i + 32} for i in range(0, 512, 32)] + [{'unknown': 1}]
@@ -270,7 +276,7 @@ class Options(object):
         if 'unknown' in block:
             names = ('supportSmiV3', 'commaAtTheEndOfImports', 'SUPPORTINDEX', 'x', '')
             for name in names:
-                for val in (True, 1, 'yes'):
+                for val in (True, 1, 'yes', False, 0, None):
                     yield {'unknown': name, 'val': val}
             # several unknown names in one call, alone and next to known ones
             import itertools as it
@@ -281,7 +287,7 @@ class Options(object):
             return
         subs = sorted(sorted(s) for s in all_subsets())
         for s in subs[block['lo']:block['hi']]:
-            yield {'S': s}
+            yield {'S': s, 'tier': tier}
 
     def run_case(self, case):
         if 'unknown' in case:
@@ -300,6 +306,7 @@ class Options(object):
                 vs.append(('C17|options|unknown-option-%s%s' % (got, '|several' if isinstance(case['unknown'], list) else ''), repr(case)))
             return got, vs, 1
         S = frozenset(case['S'])
+        p = None
         try:
             p = build(S)
             r = parse(p, 'T DEFINITIONS ::= BEGIN a OBJECT IDENTIFIER ::= { b 1 } END')
@@ -310,6 +317,22 @@ class Options(object):
         vs = []
         if not got.startswith(want) or got == 'built-but-unusable':
             vs.append(('C17|options|%s-where-%s' % (got.split(':')[0], want), repr(sorted(S))))
+        if p is not None and got == 'built':
+            # the same dialect asked for the long way: every relaxation named, the unwanted ones with a false value
+            for falsy in (False, 0, None):
+                try:
+                    q = parserFactory(**dict((o, True if o in S else falsy) for o in OPTIONS))()
+                except Exception as exc:
+                    vs.append(('C17|options|explicit-false-values|not-buildable', '%r with %r for the others: %r' % (sorted(S), falsy, exc)))
+                    break
+                for label, text in ORDER_TEXTS:
+                    a, b = parse(p, text), parse(q, text)
+                    if a != b:
+                        vs.append(('C17|options|explicit-false-values|parses-differently|%s' % label,
+                                   'options %r; others given as %r: %r, others left out: %r' % (sorted(S), falsy, b, a)))
+                        break
+                if falsy is False and tier_of(case) != 'thorough':
+                    break
         return got, vs, 1
 
 
